@@ -440,6 +440,7 @@ pub fn run_c06(tier: &str, seed: u64, model: &Model, corpus_lines: Vec<String>, 
         rep.count(&format!("{}/eol:{}", section, if c.eol.len() == 2 { "crlf" } else { "lf" }), 1);
         rep.count(&format!("{}/records:{}", section, match c.recs.len() { 0 => "0", 1 => "1", 2..=9 => "2-9", _ => "10+" }), 1);
         let uid = format!("{}_{}", seed, i);
+        progress(&c.req());
         match eval_case(c, model, work, &uid) {
             None => {
                 if c.recs.len() >= 2 && c.recs.iter().any(|r| r.seq.len() > c.wrap) {
